@@ -37,7 +37,7 @@ type World struct {
 
 // LoadWorld loads ./... of repo.  overlay maps absolute file names to contents.
 func LoadWorld(repo string, overlay map[string][]byte, env []string, tags string) (*World, error) {
-	if os.Getenv("GKV_NO_NORMALIZE") == "" && len(unknownHelpers(repo, overlay)) > 0 {
+	if os.Getenv("GKV_NO_NORMALIZE") == "" && needsNormalisation(repo, overlay) {
 		norm := normalizeOverlay(repo, overlay, env, tags)
 		notes := append([]string{}, normalizeNotes...)
 		if d := os.Getenv("GKV_DEBUG_NORM"); d != "" {
